@@ -88,12 +88,41 @@ def mc(ctx):
 # ------------------------------------------------------------------------------------------------
 # a recorder that dies
 # ------------------------------------------------------------------------------------------------
+def redrive(ctx, binname, inputs, tag):
+    """Re-drive the inputs of one session (replay mode flushes after every event).  If the recorder
+    dies, the call that never returned is appended with res = {"abort": ..}: the trace specification
+    rejects it like any other observation (a call that does not return is not an allowed answer)."""
+    inp = os.path.join(ctx.work, tag + "_in.ndjson")
+    with open(inp, "w") as f:
+        for e in inputs:
+            f.write(json.dumps(e) + "\n")
+    part = ctx.record(binname, ["--mode", "replay", "--in", inp], tag + ".ndjson", allow_fail=True)
+    evs = []
+    with open(part) as f:
+        for line in f:
+            try:
+                evs.append(json.loads(line))
+            except ValueError:
+                break
+    died = len(evs) < len(inputs)
+    if died:
+        bad = dict(inputs[len(evs)])
+        abort = {"abort": "the recorder process died inside this call (stack overflow / abort)"}
+        bad["res"] = [abort] * bad["n"] if bad["ev"] == "scan" else abort
+        evs.append(bad)
+        with open(part, "w") as f:
+            for e in evs:
+                f.write(json.dumps(e) + "\n")
+        core.log("[%s] recorder died: call #%d (%s) of the session never returned" % (ctx.prop, len(evs), bad["ev"]))
+    elif ctx.last_record_rc != 0:
+        raise core.ToolError("recorder %s failed (%d): %s" % (binname, ctx.last_record_rc, ctx.last_record_stderr[-2000:]))
+    return part, died
+
+
 def crashed_sessions(ctx, binname, paths):
     """A stack overflow or abort inside falcon kills the recorder (not catchable in-process).  The
     recorder parks the inputs of the session it is driving in `<out>.cur`; if that file is still
-    there the session is re-driven with a flush after every event, the call that never returned is
-    appended with res = {"abort": ..} and the trace specification gets to reject it like any other
-    observation (a call that does not return is not an answer the specification allows)."""
+    there after the run, that session is re-driven on its own (see redrive) and judged."""
     out = []
     for p in paths:
         if not os.path.exists(p) or (os.path.getsize(p) == 0 and not os.path.exists(p + ".cur")):
@@ -109,29 +138,9 @@ def crashed_sessions(ctx, binname, paths):
         last = max([i for i, l in enumerate(lines) if '"ev":"begin"' in l], default=0)
         with open(p, "w") as f:
             f.writelines(lines[:last])
-        tag = "crash%d" % len(out)
-        inp = os.path.join(ctx.work, tag + "_in.ndjson")
-        with open(inp, "w") as f:
-            for e in inputs:
-                f.write(json.dumps(e) + "\n")
-        part = ctx.record(binname, ["--mode", "replay", "--in", inp], tag + ".ndjson", allow_fail=True)
-        evs = []
-        with open(part) as f:
-            for line in f:
-                try:
-                    evs.append(json.loads(line))
-                except ValueError:
-                    break
-        if len(evs) >= len(inputs):
+        part, died = redrive(ctx, binname, inputs, "crash%d" % len(out))
+        if not died:
             raise core.ToolError("recorder %s died while driving a session that replays cleanly: %s" % (binname, p + ".cur"))
-        bad = dict(inputs[len(evs)])
-        abort = {"abort": "the recorder process died inside this call (stack overflow / abort)"}
-        bad["res"] = [abort] * bad["n"] if bad["ev"] == "scan" else abort
-        evs.append(bad)
-        with open(part, "w") as f:
-            for e in evs:
-                f.write(json.dumps(e) + "\n")
-        core.log("[%s] recorder died in session parked at %s: call #%d (%s) never returned" % (ctx.prop, p + ".cur", len(evs), bad["ev"]))
         out.append(part)
     return out
 
@@ -238,8 +247,8 @@ def run(ctx):
     q = ctx.quick
     may_die = {"allow_fail": True}          # a dying recorder is an observation: see crashed_sessions
     jobs = [("c16", ["--mode", "gen", "--in", h], "gen%d.ndjson" % i, may_die) for i, (h, _) in enumerate(hists)]
-    nrand, writes = (300, 60) if q else (6000, 60)
-    per = 150 if q else 750
+    nrand, writes = (200, 60) if q else (6000, 60)
+    per = 100 if q else 375
     for i in range(nrand // per):
         jobs.append(("c16", ["--mode", "random", "--n", per, "--writes", writes, "--stream", i], "rand%02d.ndjson" % i, may_die))
     paths = ctx.record_many(jobs, parallel=8)
@@ -274,11 +283,7 @@ def replay(ctx, path):
         rep = json.load(f)
     rj = rep["rejection"]
     sess = rj.get("session") or [{"ev": "begin", "endian": "little"}, rj["event"]]
-    inp = os.path.join(ctx.work, "replay_in.ndjson")
-    with open(inp, "w") as f:
-        for e in sess:
-            f.write(json.dumps(e) + "\n")
-    out = ctx.record("c16", ["--mode", "replay", "--in", inp], "replay.ndjson")
+    out, _ = redrive(ctx, "c16", sess, "replay")
     r = ctx.tlc_trace(TRACE, out, env=TLC_ENV)
     ctx.traces += 1
     _collect(ctx, [r])
